@@ -6,12 +6,14 @@
 //! trusted: R15 (deep slices): revoke_and_ack: the bodies of the two `retain` closures that drop irrevocably removed HTLCs and accumulate value_to_self_msat_diff, and the statement applying the diff to every funding scope, verbatim; InboundHTLCOutput / OutboundHTLCOutput field skeletons; OutboundHTLCOutcome::clone external_body (returns an equal value); hold_time_since / set_hold_time external_body (timing only: `.map(|hold_time| ..)` with a captured &mut is written as a match, R8, and the timestamp argument is dropped); R16 for `&`-patterns; the promotion of the remaining HTLC states in the same function is dropped and not claimed
 //! trusted: R15 (deep slice): mark_outbound_htlc_removed: the per-HTLC block of the search loop verbatim as a function of that HTLC; Sha256 is the external_body wrapper sha256 (R8); PaymentHash equality is structural; error strings dropped
 //! trusted: R15: update_add_htlc: the message-level tests (zero amount literal in the pattern, the others captured) and the two state-update statements verbatim; the channel-state pre-checks (early Err returns) and the call of validate_update_add_htlc (receiver tests proved in u01k) are dropped and not claimed; the stored onion (InboundHTLCResolution::Pending) is opaque; error strings dropped
+//! trusted: R15 (deep slice): commitment_signed_update_monitor: the body of the loop that promotes inbound HTLCs verbatim as a function of one HTLC (InboundHTLCResolution::clone external_body returning an equal value; R16)
 //! assume: HTLC amounts and balances <= 21e18 msat; |value_to_self_msat_diff| <= 4e18 while it is accumulated; the resulting balance lies between 0 and the channel value (representation invariant of the channel)
 //! plemma: C01 lemma_each_pending_htlc_exactly_once: an HTLC is never both an output of the next commitment and already credited to the claimer's balance, and a successfully claimed HTLC that is no longer an output is always credited (for both commitments)
 use vstd::prelude::*;
 verus! {
+use core::mem;
 pub struct InboundHTLCResolution {} pub struct InboundUpdateAdd {} pub struct OnionErrorPacket {} pub struct OnionPacket {}
-pub struct PaymentPreimage(pub [u8; 32]); pub struct AttributionData {} pub struct HTLCFailReason {}
+#[derive(Clone, Copy)] pub struct PaymentPreimage(pub [u8; 32]); pub struct AttributionData {} pub struct HTLCFailReason {}
 //@extract lightning/src/ln/channel.rs :: enum InboundHTLCRemovalReason
 //@strip msgs
 //@end
@@ -289,5 +291,61 @@ impl AddChannel {
     self.context.next_counterparty_htlc_id += 0;
 //@end
 }
+
+// ---- two-phase commit: what a received commitment_signed promotes (deep R15 slices of FundedChannel::commitment_signed_update_monitor) ----
+impl Clone for InboundHTLCResolution { #[verifier::external_body] fn clone(&self) -> (r: Self) ensures r == *self { unimplemented!() } }
+//@extract lightning/src/ln/channel.rs :: impl FundedChannel :: fn commitment_signed_update_monitor
+//@slice R15
+    for htlc in self.context.pending_inbound_htlcs.iter_mut() { $body:any } let mut claimed_htlcs
+//@with
+    fn inbound_htlc_on_commitment_signed(htlc: &mut InboundHTLCOutput, need_commitment_: bool) -> bool {
+        let mut need_commitment = need_commitment_;
+        $body
+        need_commitment
+    }
+//@rw R16
+    if let &InboundHTLCState::RemoteAnnounced(ref htlc_resolution) = &htlc.state
+//@with
+    if let InboundHTLCState::RemoteAnnounced(htlc_resolution) = &htlc.state
+//@ret r
+//@ensures P C01 a-commitment_signed-moves-exactly-the-htlcs-the-peer-had-announced-one-step-on-and-asks-for-our-own-commitment-in-return
+    old(htlc).state is RemoteAnnounced ==> final(htlc).state == InboundHTLCState::AwaitingRemoteRevokeToAnnounce(old(htlc).state->RemoteAnnounced_0) && r,
+    !(old(htlc).state is RemoteAnnounced) ==> final(htlc).state == old(htlc).state && r == need_commitment_,
+    final(htlc).htlc_id == old(htlc).htlc_id && final(htlc).amount_msat == old(htlc).amount_msat && final(htlc).payment_hash == old(htlc).payment_hash && final(htlc).cltv_expiry == old(htlc).cltv_expiry,
+//@mutant announced_htlc_committed_without_waiting_for_the_revocation
+    htlc.state = InboundHTLCState::AwaitingRemoteRevokeToAnnounce(htlc_resolution.clone());
+//@with
+    htlc.state = InboundHTLCState::AwaitingAnnouncedRemoteRevoke(htlc_resolution.clone());
+//@end
+
+pub struct SentHTLCId(pub u64);
+pub uninterp spec fn sent_id_of(s: HTLCSource) -> u64;
+impl SentHTLCId { #[verifier::external_body] pub fn from_source(s: &HTLCSource) -> (r: SentHTLCId) ensures r.0 == sent_id_of(*s) { unimplemented!() } }
+//@extract lightning/src/ln/channel.rs :: impl FundedChannel :: fn commitment_signed_update_monitor
+//@slice R15
+    for htlc in self.context.pending_outbound_htlcs.iter_mut() { $body:any } match &mut update {
+//@with
+    fn outbound_htlc_on_commitment_signed(htlc: &mut OutboundHTLCOutput, need_commitment_: bool, claimed_htlcs: &mut Vec<(SentHTLCId, PaymentPreimage)>) -> bool {
+        let mut need_commitment = need_commitment_;
+        $body
+        need_commitment
+    }
+//@rw R16
+    if let &mut OutboundHTLCState::RemoteRemoved(ref mut outcome) = &mut htlc.state
+//@with
+    if let OutboundHTLCState::RemoteRemoved(outcome) = &mut htlc.state
+//@ret r
+//@ensures P C01 a-commitment_signed-moves-exactly-the-htlcs-the-peer-had-removed-one-step-on-keeping-their-outcome-and-records-every-claimed-preimage-for-the-monitor
+    old(htlc).state is RemoteRemoved ==> final(htlc).state == OutboundHTLCState::AwaitingRemoteRevokeToRemove(old(htlc).state->RemoteRemoved_0) && r,
+    !(old(htlc).state is RemoteRemoved) ==> final(htlc).state == old(htlc).state && r == need_commitment_ && final(claimed_htlcs)@ == old(claimed_htlcs)@,
+    old(htlc).state is RemoteRemoved && old(htlc).state->RemoteRemoved_0 is Success ==> final(claimed_htlcs)@.len() == old(claimed_htlcs)@.len() + 1
+        && final(claimed_htlcs)@.last().0.0 == sent_id_of(old(htlc).source) && final(claimed_htlcs)@.last().1 == old(htlc).state->RemoteRemoved_0->Success_preimage,
+    old(htlc).state is RemoteRemoved && !(old(htlc).state->RemoteRemoved_0 is Success) ==> final(claimed_htlcs)@ == old(claimed_htlcs)@,
+    final(htlc).amount_msat == old(htlc).amount_msat && final(htlc).htlc_id == old(htlc).htlc_id,
+//@mutant claimed_preimage_not_recorded_for_the_monitor
+    claimed_htlcs.push((SentHTLCId::from_source(&htlc.source), preimage));
+//@with
+    let _ = preimage;
+//@end
 }
 fn main() {}
